@@ -62,6 +62,16 @@ Definition txn_status (r : txn_rq) : status :=
   else if forallb op_ok (tr_ops r) then SOk
   else SFailedPrecondition.
 
+(* regattapb.TxnRequest.IsReadonly: a transaction takes the read path (no proposal, served from a snapshot of the
+   state machine) only when EVERY operation of both branches is a range read *)
+Definition is_range (o : txn_op) : bool := match o with TRange _ _ => true | _ => false end.
+Definition is_readonly (succ fail : list txn_op) : bool := forallb is_range succ && forallb is_range fail.
+
+(* cmd.resolveURL: what the scheme of a configured address means *)
+Inductive scheme := SchHttp | SchHttps | SchUnix | SchUnixs | SchOther.
+Definition secure (s : scheme) : bool := match s with SchHttps | SchUnixs => true | _ => false end.
+Definition unix_socket (s : scheme) : bool := match s with SchUnix | SchUnixs => true | _ => false end.
+
 (* the records a request can create *)
 Definition creates (o : txn_op) : list (N * N) := match o with TPut k v => [(k, v)] | _ => [] end.
 
